@@ -24,7 +24,7 @@ COMPONENTS = {
     'reference': ['dict name -> bytes'],
 }
 ASSUMPTIONS = ['no name is a directory prefix of another; no ".", ".." or empty segments', 'the fakes encode my reading of the S3 / B2 documentation']
-PROBES = ['list_multi_page_s3', 'list_multi_page_b2', 'download_missing', 'overwrite', 'delete_missing', 'spelling_relative', 'spelling_dot',
+PROBES = ['list_multi_page_s3', 'list_multi_page_b2', 'download_missing', 'overwrite', 'delete_missing', 'spelling_relative', 'spelling_dot', 'spelling_symlink_dotdot',
           'concurrent_reader', 'concurrent_writer', 'name_nonascii', 'name_special', 'name_tmp_suffix', 'name_near_255_bytes', 'stream_short_reads']
 TIERS = {'quick': {'budget_s': 60, 'batch': 10}, 'thorough': {'budget_s': 900, 'batch': 20}}
 
@@ -115,7 +115,7 @@ def gen_case(seed, tier):
                 prefix = rng.choice(['zz', name + 'x', 'data/', name.split('/')[0]])
             ops.append({'op': 'list', 'prefix': prefix})
     return {'seed': seed, 'sched_seed': seed, 'names': names, 'ops': ops,
-            'spelling': rng.choice(['abs', 'abs', 'rel', 'dot', 'dotslash', 'trailing', 'dotdot', 'symlink']),
+            'spelling': rng.choice(['abs', 'abs', 'rel', 'dot', 'dotslash', 'trailing', 'dotdot', 'symlink', 'symlink-dotdot']),
             's3_page': rng.choice([1, 2, 3, 5, 1000]), 'b2_page': rng.choice([1, 2, 3, 5, 1000]), 'b2_by_id': rng.random() < 0.5,
             'b2_restricted': rng.random() < 0.5, 'lat': rng.choice([0.0, 0.01]),
             'opts': world.SchedOpts.swarm(rng).as_dict(), 'adapters': ['local', 's3', 'b2']}
@@ -172,6 +172,16 @@ def run_case(case):
             (d / 'a').mkdir()
             loc = 'a/../repo dir'
             probes['spelling_relative'] = 1
+        elif spelling == 'symlink-dotdot':
+            # '..' after a symbolic link: the OS resolves it against the link's TARGET, a textual clean-up of the path would not
+            os.rmdir(root)
+            (d / 'elsewhere' / 'sub').mkdir(parents=True)
+            root = d / 'elsewhere' / 'repo dir'
+            root.mkdir()
+            (d / 'repo dir').mkdir()      # what 'link/../repo dir' collapses to textually: another, unrelated directory
+            os.symlink(d / 'elsewhere' / 'sub', d / 'link')
+            loc = rng.choice([str(d / 'link' / '..' / 'repo dir'), 'link/../repo dir'])
+            probes['spelling_symlink_dotdot'] = 1
         else:
             os.symlink(root, d / 'link')
             loc = str(d / 'link')
@@ -193,6 +203,7 @@ def run_case(case):
                 services['b2'] = svc
                 backends['b2'] = Ops(fakes.make_b2(svc, by_id=case['b2_by_id']))
             model = {}
+            res_holder['model'] = model
             res_holder['known_names'] = set(case['names'])
             for i, op in enumerate(case['ops']):
                 kind = op['op']
@@ -322,6 +333,22 @@ def run_case(case):
                 viol.append({'cls': 'hang', 'sig': {}, 'msg': f'history did not terminate: {r.hang}'})
             elif r.exc is not None:
                 raise r.exc
+        if 'local' in case['adapters'] and not viol and 'model' in res_holder:
+            # whatever the spelling, the objects are where the operating system resolves the repository path to
+            on_disk = {}
+            for dp, dn, fn in os.walk(root):
+                for f in fn:
+                    q = os.path.join(dp, f)
+                    with open(q, 'rb') as fh:
+                        on_disk[os.path.relpath(q, root)] = fh.read()
+            want = {k: bytes(v) for k, v in res_holder['model'].items()}
+            extra = {k for k in on_disk if k not in want and not k.endswith('.tmp')}
+            missing = {k for k in want if k not in on_disk}
+            wrong = {k for k in want if k in on_disk and on_disk[k] != want[k]}
+            if extra or missing or wrong:
+                viol.append({'cls': 'objects-not-in-the-repository-directory', 'sig': {'backend': 'local', 'spelling': spelling},
+                             'msg': f'local (spelling {spelling!r} = {loc!r}): after the history the directory the OS resolves the path to holds '
+                                    f'{len(on_disk)} files; missing {sorted(missing)[:3]}, unexpected {sorted(extra)[:3]}, different {sorted(wrong)[:3]}'})
         for bname, svc in services.items():
             if bname == 's3' and svc.violations and not viol:
                 v = svc.violations[0]
